@@ -161,10 +161,10 @@ class History:
             w.sink_sites = []                                    # type: ignore[attr-defined]
             w.run()
             edges = [((callee, crk), site) for (callee, crk, _lk), site in zip(sink, w.sink_sites)]  # type: ignore[attr-defined]
-            self.out[node] = self._mro_filter(self._expand_receivers(self._typed_dispatch(fi, edges)))
+            self.out[node] = self._mro_filter(fi, self._expand_receivers(fi, self._typed_dispatch(fi, edges)))
         return self.out[node]
 
-    def _mro_filter(self, edges: List[Tuple[Node, ast.AST]]) -> List[Tuple[Node, ast.AST]]:
+    def _mro_filter(self, caller: Any, edges: List[Tuple[Node, ast.AST]]) -> List[Tuple[Node, ast.AST]]:
         """`R.m(..)` / `cls.m(..)` with the receiver class R known (R or one of its subclasses) enters the definition of m
         that the MRO of that class selects - not the overridden ones further up, which only `super().m(..)` reaches."""
         out: List[Tuple[Node, ast.AST]] = []
@@ -174,6 +174,13 @@ class History:
             func = site.func if isinstance(site, ast.Call) else None
             is_super = isinstance(func, ast.Attribute) and isinstance(func.value, ast.Call) \
                 and isinstance(func.value.func, ast.Name) and func.value.func.id == "super"
+            if is_super and rcls is not None and caller.cls is not None and isinstance(func, ast.Attribute) \
+                    and caller.cls in rcls.mro():
+                # super().m(..) in a method of class D with receiver class R: the next definition of m after D in R's MRO
+                mro = rcls.mro()
+                nxt = next((k.methods[func.attr] for k in mro[mro.index(caller.cls) + 1:] if func.attr in k.methods), None)
+                if nxt is not None and nxt is not fi:
+                    continue
             if rcls is not None and fi.cls is not None and not is_super and isinstance(func, ast.Attribute) \
                     and func.attr == fi.node.name and fi.node.name not in CTOR_FAMILY:      # type: ignore[attr-defined]
                 selected = False
@@ -206,14 +213,32 @@ class History:
             memo[key] = out
         return memo[key]
 
-    def _expand_receivers(self, edges: List[Tuple[Node, ast.AST]]) -> List[Tuple[Node, ast.AST]]:
-        """A method reached through a receiver of unknown class (table dispatch, by-name resolution) is entered once per
-        class whose MRO resolves the name to it, so that `cls.attr` / `cls.m()` inside it are resolved for that class."""
+    def _expand_receivers(self, caller: Any, edges: List[Tuple[Node, ast.AST]]) -> List[Tuple[Node, ast.AST]]:
+        """Every method node carries ONE exact receiver class: a method reached through a receiver of unknown class (table
+        dispatch, by-name resolution) or of a class known up to subclassing is entered once per class whose MRO resolves
+        the name to it; `self.m()` / `cls.m()` / `super().m()` keep the receiver of the caller.  So `cls.attr` / `cls.m()`
+        inside it are resolved for exactly that class."""
         out: List[Tuple[Node, ast.AST]] = []
+        args = getattr(caller.node, "args", None)
+        me = args.args[0].arg if args is not None and args.args and caller.cls is not None \
+            and caller.kind in ("method", "classmethod", "property") else None
         for (callee, rk), site in edges:
             fi = self.p.fns[callee]
-            if rk is None and fi.cls is not None and fi.kind in ("method", "classmethod", "property"):
-                rs = self.receiver_set(callee)
+            if fi.cls is not None and fi.kind in ("method", "classmethod", "property"):
+                func = site.func if isinstance(site, ast.Call) else site
+                base = func.value if isinstance(func, ast.Attribute) else None
+                same_receiver = (isinstance(base, ast.Name) and base.id == me) or (
+                    isinstance(base, ast.Call) and isinstance(base.func, ast.Name) and base.func.id == "super")
+                if rk is None:
+                    rs = self.receiver_set(callee)
+                elif same_receiver:
+                    rs = [rk]                                   # the caller's own receiver: already one exact class
+                else:
+                    rcls = self.p.classes.get(rk)
+                    mine = set(self.receiver_set(callee))
+                    rs = [k for k in ([rk] + [(c.rel, c.name) for c in rcls.descendants()] if rcls else [rk]) if k in mine]
+                    if not rs:
+                        continue                                # the MRO of no such receiver selects this definition
                 if rs:
                     out.extend(((callee, r), site) for r in rs)
                     continue
@@ -392,10 +417,18 @@ class History:
                 out.add(n.targets[0].id)
         return out
 
-    def guarded(self, node: Node, inner: ast.AST, loc: str) -> Optional[int]:
+    def guarded(self, node: Node, inner: ast.AST, loc: str, is_store: bool = False) -> Optional[int]:
         """Line of a `try` of the function that encloses `inner` (not in its finally) and whose `finally` resets loc."""
         fn_node = self.p.fns[node[0]].node
         saved = self._saved_locals(node[0], loc)
+        if is_store and isinstance(inner, ast.stmt):
+            # `L = v` immediately followed by `try: .. finally: L = <neutral>`: nothing can fail in between
+            parent = getattr(inner, "_parent", None)
+            for blk in _blocks(parent) if parent is not None else []:
+                for i, st in enumerate(blk[:-1]):
+                    nxt = blk[i + 1]
+                    if st is inner and isinstance(nxt, ast.Try) and nxt.finalbody and self._resets(node, nxt.finalbody, loc, saved):
+                        return nxt.lineno
         prev: ast.AST = inner
         cur: Optional[ast.AST] = getattr(inner, "_parent", None)
         while cur is not None:
@@ -589,8 +622,9 @@ class History:
                 for nd in self.by_fn.get(a.fn, []):
                     ci = self.p.classes.get(nd[1]) if nd[1] is not None else None
                     if ci is None or fi.cls not in ci.hierarchy():
-                        ci = fi.cls
-                    out |= self._desc(ci)
+                        out |= self._desc(fi.cls)            # receiver unknown: any class of the hierarchy below
+                    else:
+                        out.add((ci.rel, ci.name))           # exact receiver class of the node
             else:
                 return None
         return out
@@ -607,8 +641,50 @@ class History:
             return True
         ci = self.p.classes.get(nd[1]) if nd[1] is not None else None
         if ci is None or fi.cls not in ci.hierarchy():
-            ci = fi.cls
-        return bool(self._desc(ci) & wclasses)
+            return bool(self._desc(fi.cls) & wclasses) or any((c.rel, c.name) in wclasses for c in fi.cls.mro())
+        # exact receiver class: attribute lookup walks its MRO and finds a filled slot only on one of those classes
+        return any((c.rel, c.name) in wclasses for c in ci.mro())
+
+    def dead_read(self, a: Access) -> bool:
+        """The value read is only handed, as an argument, to a function of the tree whose parameter is never loaded in its
+        body (e.g. check_unary_implicit_promotion(.., return_type) ignores return_type): the read cannot influence anything."""
+        fi = self.p.fns[a.fn]
+        name = a.loc.split(":", 1)[1].rsplit(".", 1)[-1]
+        hits = [n for n in ast.walk(fi.node) if getattr(n, "lineno", -1) == a.line and (
+            (isinstance(n, ast.Attribute) and n.attr == name) or (isinstance(n, ast.Name) and n.id == name))
+            and isinstance(getattr(n, "ctx", None), ast.Load)]
+        if not hits:
+            return False
+        for n in hits:
+            call = getattr(n, "_parent", None)
+            kwname: Optional[str] = None
+            if isinstance(call, ast.keyword):
+                kwname = call.arg
+                call = getattr(call, "_parent", None)
+            if not isinstance(call, ast.Call) or not isinstance(call.func, ast.Name):
+                return False
+            b = self.p.lookup(fi.rel, call.func.id)
+            if b is None or b[0] != "func" or b[1] not in self.p.fns:
+                return False
+            callee = self.p.fns[b[1]].node
+            cargs = callee.args                                              # type: ignore[attr-defined]
+            if cargs.vararg is not None or cargs.kwarg is not None:
+                return False
+            params = [p.arg for p in cargs.posonlyargs + cargs.args]
+            if kwname is None:
+                if n not in call.args or any(isinstance(x, ast.Starred) for x in call.args):
+                    return False
+                idx = call.args.index(n)
+                if idx >= len(params):
+                    return False
+                pname = params[idx]
+            else:
+                pname = kwname
+                if pname not in params + [p.arg for p in cargs.kwonlyargs]:
+                    return False
+            if any(isinstance(x, ast.Name) and x.id == pname for x in ast.walk(callee) if not isinstance(x, ast.arg)):
+                return False
+        return True
 
     def summary(self, node: Node, loc: str, can_store: Set[Key]) -> bool:
         return self.flow(node, loc, can_store)[1]
@@ -718,6 +794,8 @@ class History:
             for a in readers:
                 fn_node = self.p.fns[a.fn].node
                 st = innermost_stmt(fn_node, a.line)
+                if self.dead_read(a):
+                    continue
                 for nd in self.by_fn.get(a.fn, []):
                     if not self.read_can_see(a, nd, wclasses):
                         continue
@@ -743,7 +821,7 @@ class History:
                     continue
                 bad: List[int] = []
                 for st in non_neutral:
-                    ok = all(self.guarded(nd, st, loc) is not None or prot[nd] for nd in self.by_fn.get(s.fn, []))
+                    ok = all(self.guarded(nd, st, loc, is_store=True) is not None or prot[nd] for nd in self.by_fn.get(s.fn, []))
                     if not ok:
                         bad.append(st.lineno)
                 if not bad:
